@@ -354,6 +354,7 @@ type world struct {
 	// model
 	sets     []*setDef // history in order of set steps
 	cur      *setDef
+	curGS    *common.GuardianSet // what the processor was last handed (loop mode hand-offs)
 	digests  map[string]*digestModel
 	universe map[string]msgDesc // idKey -> some desc with that id
 	store    map[string][]byte  // idKey -> bytes last seen in store
@@ -511,7 +512,16 @@ func (w *world) recordPanic(r interface{}, stack []byte) {
 // ---------------------------------------------------------------------------------------------
 // observation of the SUT
 
+// peek reports whether the harness may look at the processor's private state. It does so only
+// while the bubble is quiescent, which the race detector cannot know: in the race-detector tier
+// with the real Run loop the harness keeps its hands off, so that every report left concerns two
+// goroutines of the code under test. (The state oracles run in the ordinary tiers.)
+func (w *world) peek() bool { return !(raceBuild && w.loop) }
+
 func (w *world) stateDump() string {
+	if !w.peek() {
+		return ""
+	}
 	var keys []string
 	for h := range w.p.state.vaaSignatures {
 		keys = append(keys, h)
@@ -730,6 +740,7 @@ func (w *world) runStep(i int, st simkit.Step) {
 		w.sets = append(w.sets, s)
 		w.cur = s
 		gs := w.gsOf(s)
+		w.curGS = gs
 		if w.loop {
 			w.guard(func() { w.setC <- gs })
 		} else {
@@ -840,6 +851,7 @@ func (w *world) runStep(i int, st simkit.Step) {
 		w.db = dbn
 		w.newProcessor()
 		w.cur = nil
+		w.curGS = nil
 		w.pastSummaries += w.acceptedSummary() + "|restart|"
 		w.digests = map[string]*digestModel{}
 		w.stats.Fault("node-restart")
@@ -1115,7 +1127,7 @@ func (w *world) afterStep(st simkit.Step, before, obsHash string, obsAcceptable 
 			if len(o.obs)+len(o.vaas)+len(changes)+len(o.reqs) > 0 {
 				w.violate("C02", "governance-emitter-observation-signed", "chain observation naming the governance emitter produced %d obs %d vaas %d store changes", len(o.obs), len(o.vaas), len(changes))
 			}
-			if w.p.state.vaaSignatures[hex.EncodeToString(d.digest())] != nil && w.dm(hex.EncodeToString(d.digest())) == nil {
+			if w.peek() && w.p.state.vaaSignatures[hex.EncodeToString(d.digest())] != nil && w.dm(hex.EncodeToString(d.digest())) == nil {
 				w.violate("C02", "governance-emitter-observation-state", "chain observation naming the governance emitter created aggregation state")
 			}
 			w.stats.Probe("gov-emitter-observation-dropped")
@@ -1424,7 +1436,7 @@ func (w *world) doTicks(st simkit.Step) {
 			w.guard(func() { w.p.handleCleanup(w.hctx) })
 		} else {
 			// the Run loop must be back in its select: a set update hand-off completes at once
-			if cur := w.p.gs; cur != nil {
+			if cur := w.curGS; cur != nil {
 				w.guard(func() { w.setC <- cur })
 			}
 		}
@@ -1442,7 +1454,9 @@ func (w *world) doTicks(st simkit.Step) {
 		for _, c := range changes {
 			w.checkStoreChange(st, c)
 		}
-		w.checkCleanup(st, o)
+		if w.peek() {
+			w.checkCleanup(st, o)
+		}
 		if n <= 4 || k < 2 || k == n-1 {
 			for _, ob := range o.obs {
 				w.log.Add("tick out obs %s", shortHex(ob.Hash))
@@ -1626,6 +1640,34 @@ func (w *world) forget(h string) {
 	w.digests[h] = &digestModel{hash: h, desc: m.desc, delivered: map[string]bool{}, accepted: map[string]bool{}, hadStoreAt: m.hadStoreAt}
 }
 
+// storm (race-detector tier, loop mode only): gossip keeps arriving from several goroutines while
+// the real 30 s cleanup ticker fires a few times. Everything the processor does must stay on its
+// own goroutine; the race detector reports any aggregation state touched from elsewhere.
+func (w *world) storm() {
+	var wg sync.WaitGroup
+	members := w.cur.keys
+	for f := 0; f < 3; f++ {
+		wg.Add(1)
+		go func(f int) {
+			defer wg.Done()
+			for k := 0; k < 40; k++ {
+				d := decodeMsg(encodeMsg((f*5+k)%14, 0, 0, 0, k%4, (k/4)%2))
+				dig := d.digest()
+				key := members[(f+k)%len(members)]
+				w.obsvC <- &gossipv1.SignedObservation{Addr: simAddrs[key].Bytes(), Hash: dig, Signature: signWith(key, dig), TxHash: dig, MessageId: "storm"}
+				time.Sleep(time.Duration(500+100*f) * time.Millisecond)
+			}
+		}(f)
+	}
+	wg.Wait()
+	time.Sleep(70 * time.Second)
+	synctest.Wait()
+	w.outMu.Lock()
+	w.out = nil
+	w.outMu.Unlock()
+	w.stats.Probe("concurrent-gossip-storm")
+}
+
 // openStore opens the node's badger store like db.Open does, except that badger's four
 // compaction workers are switched off: each of them polls on a 50 ms ticker, which turns every
 // simulated hour into 288 000 timer events (a 60-day C14 horizon would take a quarter of an
@@ -1715,6 +1757,9 @@ func (h procHarness) execOnce(p *simkit.Program) (*simkit.Result, *world) {
 			res.Violations = append(res.Violations, *w.panicked)
 			w.log.Add("PANIC %s", w.panicked.Key)
 			w.log.Cut("panic")
+		}
+		if raceBuild && w.loop && !w.dead && w.cur != nil && len(w.cur.keys) > 0 {
+			w.storm()
 		}
 		res.SimNs = int64(time.Since(w.start))
 		w.stopProcessor()
